@@ -676,22 +676,19 @@ func c17Scenario(l *c17Line, sc, n int, long bool) []*c17Line {
 		case 0:
 			l.directive("account")
 			l.raw(" ")
-			first := zzverif.Letters // other first characters: scenario 5
-			if long {
-				first = c17SegFirst
-			}
-			l.noWide = !long // wide characters in account names: scenarios 4 and 5
-			l.account("acct", 2, n, first)
+			l.noWide = !long // other first characters: scenarios 4 (long) and 5
+			l.account("acct", 2, 2, zzverif.Letters)
 			l.noWide = false
 			if k := zzverif.Choice("ac.kind", 3); k > 0 {
 				l.spaces(2)
+				l.noCRLF = long // (quick: CRLF after every kind of line end)
 				l.comment("ac", k, 1, false)
 			}
 		case 1:
 			l.directive("include")
 			l.raw(" ")
 			m := l.mark()
-			l.slots("path", 1+zzverif.Choice("path.len", n+1), c17PathA, c17PathA, c17PathA, false)
+			l.slots("path", 1+zzverif.Choice("path.len", 3), c17PathA, c17PathA, c17PathA, false)
 			l.lexeme(m, lfPath, c17Bit(ttString))
 		default:
 			l.directive([]string{"Y", "year"}[zzverif.Choice("yword", 2)])
